@@ -4,6 +4,7 @@ import (
 	"bytes"
 	"encoding/json"
 	"fmt"
+	"math"
 	"sort"
 	"strings"
 
@@ -129,6 +130,13 @@ func (c colSpec) data() (interface{}, model.Col, bool) {
 		}
 		mc.Kind = model.Float
 		return qframe.ConstFloat{Val: 2.5, Count: c.Len}, mc, true
+	case "constnegzero":
+		nz := math.Copysign(0, -1)
+		for i := 0; i < c.Len; i++ {
+			mc.Cells = append(mc.Cells, model.F(nz))
+		}
+		mc.Kind = model.Float
+		return qframe.ConstFloat{Val: nz, Count: c.Len}, mc, true
 	case "constbool":
 		for i := 0; i < c.Len; i++ {
 			mc.Cells = append(mc.Cells, model.B(true))
@@ -292,6 +300,26 @@ func runNewCase(c newCase) *core.Failure {
 		fail := core.Failf("New(%+v): %s%s\n want: %s\n  got: %s", c, d, why, want, got)
 		return fail
 	}
+	// latent state: frames with an enum column or a column made from a constant go through the battery (battery.go):
+	// follow-up operations on the frame and on a frame built from plain slices with the same content
+	if !want.Err && want.N > 0 && len(c.Cols) <= 3 {
+		special := c.EnumCol != ""
+		for _, col := range c.Cols {
+			special = special || strings.HasPrefix(col.Kind, "const")
+		}
+		if special {
+			decl := map[string][]string{}
+			if c.EnumCol != "" && !c.EnumNil && len(c.EnumVals) > 0 {
+				decl[c.EnumCol] = c.EnumVals
+			}
+			r := qframe.New(data, fns...)
+			what := fmt.Sprintf("the frame returned by New(%+v)", c)
+			if f := latentBattery(r, decl, what); f != nil {
+				return f
+			}
+			return bookkeepingBattery(r, what)
+		}
+	}
 	return nil
 }
 
@@ -312,7 +340,7 @@ type projCase struct {
 }
 
 // frames "however derived": the projection operations run on the results of these
-var c08DerivedBases = []string{"aggregated", "evaluated", "applied", "rownums", "distinct-sorted", "filtered", "csv", "json"}
+var c08DerivedBases = []string{"aggregated", "evaluated", "applied", "rownums", "distinct-sorted", "filtered", "csv", "json", "evaluated-onto-existing", "copied-onto-existing", "sorted-then-upper"}
 
 func c08GlobBase() model.Frame {
 	f := model.Frame{N: 3}
@@ -354,6 +382,12 @@ func c08ProjFrame(base string, shape int) (qframe.QFrame, model.Frame) {
 			qf = q.Eval("d", qframe.Expr("+", types.ColumnName("a"), types.ColumnName("a")))
 		case "applied":
 			qf = q.Apply(qframe.Instruction{Fn: 2.5, DstCol: "d"}, qframe.Instruction{Fn: func(x int) int { return x + 1 }, DstCol: "a", SrcCol1: "a"})
+		case "evaluated-onto-existing":
+			qf = q.Eval("a", qframe.Expr("+", types.ColumnName("a"), types.ColumnName("a")))
+		case "copied-onto-existing":
+			qf = q.Copy("d", "b").Copy("b", "d").Apply(qframe.Instruction{Fn: func(x int) int { return -x }, DstCol: "a", SrcCol1: "a"})
+		case "sorted-then-upper":
+			qf = q.Sort(qframe.Order{Column: "a", Reverse: true}).Apply(qframe.Instruction{Fn: "ToUpper", DstCol: "b", SrcCol1: "b"})
 		case "rownums":
 			qf = q.WithRowNums("d")
 		case "distinct-sorted":
@@ -543,7 +577,7 @@ func c08Run(ctx *core.Ctx) {
 			ctx.Sample(c)
 		}
 	}
-	allKinds := []string{"ints", "floats", "bools", "strings", "strptrs", "constint", "constfloat", "constbool", "conststring", "constnil", "int32s", "nil", "scalar"}
+	allKinds := []string{"ints", "floats", "bools", "strings", "strptrs", "constint", "constfloat", "constnegzero", "constbool", "conststring", "constnil", "int32s", "nil", "scalar"}
 	fewKinds := []string{"ints", "floats", "strptrs", "constint", "conststring", "int32s"}
 	lens := []int{0, 1, 3}
 	specs := func(name string, kinds []string) []colSpec {
